@@ -138,3 +138,37 @@ def _classes_b() -> t.Dict[str, t.Any]:
 
     _CACHE_B.update(control=CustomControlB, filter=CustomFilterB, auth=CustomAuthB)
     return _CACHE_B
+
+
+_COLLIDING: t.Dict[t.Tuple[str, t.Any], t.Any] = {}
+
+
+def colliding(what: str, ident: t.Any) -> t.Any:
+    """The custom class of kind ``what`` re-identified with ``ident`` (an OID / filter id / auth id a built-in type uses)."""
+    key = (what, ident)
+    if key in _COLLIDING:
+        return _COLLIDING[key]
+    A = classes("A")
+    if what == "control":
+
+        @dataclasses.dataclass(frozen=True)
+        class CollidingControl(A["control"]):  # type: ignore[misc,valid-type]
+            control_type: str = dataclasses.field(init=False, repr=False, default=ident)
+
+        cls: t.Any = CollidingControl
+    elif what == "filter":
+
+        @dataclasses.dataclass(frozen=True)
+        class CollidingFilter(A["filter"]):  # type: ignore[misc,valid-type]
+            filter_id: int = dataclasses.field(init=False, repr=False, default=ident)
+
+        cls = CollidingFilter
+    else:
+
+        @dataclasses.dataclass(frozen=True)
+        class CollidingAuth(A["auth"]):  # type: ignore[misc,valid-type]
+            auth_id: int = dataclasses.field(init=False, repr=False, default=ident)
+
+        cls = CollidingAuth
+    _COLLIDING[key] = cls
+    return cls
